@@ -831,6 +831,11 @@ func (c *Ctx) scribbleResults(out *Outcome) {
 		processScribbles++
 		tag = processScribbles * 1000
 	}
+	// two phases: the paths of ONE result may share a backing array (carved
+	// from one block, capacities overlapping); that memory all belongs to the
+	// caller, so first everything is written, then the digests are taken
+	var w64 []clip.Path64
+	var wD []clip.PathD
 	for _, p := range out.k64 {
 		full := p[:cap(p)]
 		if len(full) == 0 || c.overlapsInput(uintptr(unsafe.Pointer(unsafe.SliceData(full))), len(full)) {
@@ -839,10 +844,7 @@ func (c *Ctx) scribbleResults(out *Outcome) {
 		for j := range full {
 			full[j] = clip.Point64{X: 515151 + int64(j), Y: -626262 - tag}
 		}
-		if len(c.kept) < 4000 {
-			c.kept = append(c.kept, keptPath{p64: full, dig: digPath64(full), op: c.opIndex, kind: "memory the caller reused after " + catalogueName(c, out)})
-		}
-		rememberOwned(keptPath{p64: full, dig: digPath64(full), kind: catalogueName(c, out)})
+		w64 = append(w64, full)
 		n++
 	}
 	for _, p := range out.kD {
@@ -853,11 +855,20 @@ func (c *Ctx) scribbleResults(out *Outcome) {
 		for j := range full {
 			full[j] = clip.PointD{X: 5151.51 + float64(j), Y: -6262.62 - float64(tag)}
 		}
+		wD = append(wD, full)
+		n++
+	}
+	for _, full := range w64 {
+		if len(c.kept) < 4000 {
+			c.kept = append(c.kept, keptPath{p64: full, dig: digPath64(full), op: c.opIndex, kind: "memory the caller reused after " + catalogueName(c, out)})
+		}
+		rememberOwned(keptPath{p64: full, dig: digPath64(full), kind: catalogueName(c, out)})
+	}
+	for _, full := range wD {
 		if len(c.kept) < 4000 {
 			c.kept = append(c.kept, keptPath{pd: full, dig: digPathD(full), op: c.opIndex, kind: "memory the caller reused after " + catalogueName(c, out)})
 		}
 		rememberOwned(keptPath{pd: full, dig: digPathD(full), kind: catalogueName(c, out)})
-		n++
 	}
 	// spare capacity behind a returned list: the caller appends to it
 	for _, ps := range out.ko64 {
